@@ -60,6 +60,13 @@ Theorem C14_reverse_complement_twice : forall s r, all_chars involutive s = true
 Proof. exact rc_involutive. Qed.
 Print Assumptions C14_reverse_complement_twice.
 
+(* the reverse complement of two sequences spelled one after the other is the reverse complement of the second followed by
+   that of the first: a chain walked the other way round spells the reverse complement of what it spells *)
+Theorem C14_reverse_complement_of_concatenation : forall a b a' b',
+  comp a = Some a' -> comp b = Some b' -> comp (a ++ b)%string = Some (b' ++ a')%string.
+Proof. exact comp_app. Qed.
+Print Assumptions C14_reverse_complement_of_concatenation.
+
 Theorem C14_cut_length : forall n s, String.length (drop n s) = (String.length s - n)%nat.
 Proof. exact drop_length. Qed.
 Print Assumptions C14_cut_length.
